@@ -31,6 +31,10 @@ import (
 //   default   DefaultAuthentication vs operation AuthInfo vs a pre-set Authorization header
 //   defaultx  DefaultAuthentication (any writer) vs operation AuthInfo (any writer: basic, bearer, key in header / query,
 //             pass-through, compositions, nil) vs pre-set header and query parameters; every credential on the wire is observed
+//   defhist   2-6 requests built one after the other on ONE Runtime (CreateHttpRequest or Submit), DefaultAuthentication being
+//             reassigned between them (another credential, none, back), some requests with their own AuthInfo or a pre-set
+//             Authorization header; every request is observed on the wire as in defaultx, and the client-side requests built
+//             earlier are looked at again once all later ones have been built
 
 type c14In struct {
 	Kind    string `json:"kind"`
@@ -56,6 +60,25 @@ type c14In struct {
 	DefW *c14W   `json:"defw,omitempty"` // Runtime.DefaultAuthentication (nil: not configured)
 	PreH []c14KV `json:"preh,omitempty"` // header parameters set by the operation's parameters
 	PreQ []c14KV `json:"preq,omitempty"` // query parameters set by the operation's parameters
+	// kind "defhist"
+	Steps []c14Step `json:"steps,omitempty"`
+}
+
+// c14Step is one request of a history on one Runtime: DefaultAuthentication is (re)assigned from DefW, then the request is built.
+type c14Step struct {
+	DefW   *c14W   `json:"defw,omitempty"` // Runtime.DefaultAuthentication in force for this request (nil: assigned nil)
+	OpW    *c14W   `json:"opw,omitempty"`
+	PreH   []c14KV `json:"preh,omitempty"`
+	PreQ   []c14KV `json:"preq,omitempty"`
+	Submit bool    `json:"submit,omitempty"` // through Runtime.Submit and a capturing round tripper instead of CreateHttpRequest
+}
+
+type c14StepObs struct {
+	Fail   string   `json:"fail,omitempty"`
+	Stable bool     `json:"stable"`
+	Note   string   `json:"note,omitempty"`
+	Hdrs   []c14KVs `json:"hdrs,omitempty"`
+	Qry    []c14KVs `json:"qry,omitempty"`
 }
 
 // c14W describes a credential writer of client/auth_info.go.
@@ -95,6 +118,8 @@ type c14Obs struct {
 	// defaultx: every header that is not the transport's own (lower-cased name) and every query parameter, as received
 	Hdrs []c14KVs `json:"hdrs,omitempty"`
 	Qry  []c14KVs `json:"qry,omitempty"`
+	// defhist
+	Steps []c14StepObs `json:"steps,omitempty"`
 }
 
 type c14 struct{}
@@ -109,7 +134,9 @@ func (c14) Rule() string {
 		"bearer: every subset of {Authorization header, query, urlencoded form, multipart form, form under a JSON content type} with foreign schemes and lower-case prefix in the header, scopes lists; " +
 		"default: all 8 combinations of operation writer / default writer / pre-set header; defaultx: the default credential crossed with every kind of operation writer " +
 		"(none, nil from an unsupported key location, basic, bearer, key in header, key named Authorization, key in query, pass-through, compositions with and without an Authorization writer, nested, empty, with nil entries) " +
-		"and of default writer, with Authorization / key header / query parameters pre-set by the parameters; observed: every non-transport header and every query parameter received. " +
+		"and of default writer, with Authorization / key header / query parameters pre-set by the parameters; observed: every non-transport header and every query parameter received; " +
+		"defhist: 2-6 requests on one Runtime with DefaultAuthentication reassigned between them (every sequence of three settings out of {token A, token B, none} under nine patterns of plain / own AuthInfo / pre-set Authorization requests, " +
+		"sequences over bearer / basic / key in header / key in query / none, random histories of random writers), built by CreateHttpRequest or Submit; earlier client-side requests re-inspected at the end. " +
 		"Non-trivial: every case in which a credential is transmitted or configured."
 }
 
@@ -174,6 +201,46 @@ func (c14) Enumerate(tier string) []any {
 			}
 		}
 	}
+	// histories on one Runtime. (a) every sequence of three settings out of {token A, token B, none} under nine patterns of
+	// request kinds (p plain, o own AuthInfo, h pre-set Authorization header)
+	tokA, tokB := pw(c14W{K: "bearer", A: "TOKEN-A"}), pw(c14W{K: "bearer", A: "TOKEN-B"})
+	settings := []*c14W{tokA, tokB, nil}
+	mkStep := func(def *c14W, kind byte, submit bool) c14Step {
+		st := c14Step{DefW: def, Submit: submit}
+		switch kind {
+		case 'o':
+			st.OpW = pw(kh("X-API-Key", "opkey"))
+		case 'O':
+			st.OpW = pw(c14W{K: "bearer", A: "OWN"})
+		case 'h':
+			st.PreH = []c14KV{{"Authorization", "Bearer PRE"}}
+		}
+		return st
+	}
+	for n, pat := range []string{"ppp", "opp", "hpp", "pop", "php", "Opp", "poh", "ohp", "pOp"} {
+		for a := 0; a < 3; a++ {
+			for b := 0; b < 3; b++ {
+				for c := 0; c < 3; c++ {
+					sub := (n+a+b+c)%4 == 0
+					out = append(out, c14In{Kind: "defhist", Steps: []c14Step{mkStep(settings[a], pat[0], sub), mkStep(settings[b], pat[1], sub), mkStep(settings[c], pat[2], false)}})
+				}
+			}
+		}
+	}
+	// (b) one kind of credential replaced by another, and back
+	kinds := []*c14W{tokA, pw(c14W{K: "basic", A: "du", B: "dp"}), pw(kh("X-Default-Key", "dk")), pw(kq("default_key", "dq")), nil,
+		pw(comp(c14W{K: "bearer", A: "DEF"}, kq("default_key", "dq")))}
+	for i, a := range kinds {
+		for j, b := range kinds {
+			if i == j {
+				continue
+			}
+			out = append(out, c14In{Kind: "defhist", Steps: []c14Step{mkStep(a, 'p', false), mkStep(b, 'p', false), mkStep(a, 'p', false), mkStep(b, 'o', false), mkStep(b, 'p', true)}})
+		}
+	}
+	// (c) a token refreshed several times in a row; the default configured only after the first requests have been built
+	out = append(out, c14In{Kind: "defhist", Steps: []c14Step{mkStep(tokA, 'p', true), mkStep(tokB, 'p', true), mkStep(pw(c14W{K: "bearer", A: "TOKEN-C"}), 'p', true), mkStep(tokA, 'p', true)}})
+	out = append(out, c14In{Kind: "defhist", Steps: []c14Step{mkStep(nil, 'p', false), mkStep(nil, 'o', false), mkStep(tokA, 'p', false), mkStep(tokB, 'p', false), mkStep(nil, 'p', false), mkStep(tokB, 'p', false)}})
 	// every subset of bearer placements
 	for mask := 0; mask < 8; mask++ {
 		for form := 0; form <= 3; form++ {
@@ -274,7 +341,9 @@ func c14GenWriter(r *rand.Rand, depth int) c14W {
 }
 
 func (c14) Gen(r *rand.Rand, tier string, i int) any {
-	switch k := r.Intn(10); {
+	switch k := r.Intn(11); {
+	case k == 10:
+		return c14GenHist(r)
 	case k < 3:
 		in := c14In{Kind: "basic", Ctx: r.Intn(2) == 0, CbErr: r.Intn(4) == 0, Realm: Bs(c14Realms[r.Intn(len(c14Realms))])}
 		switch r.Intn(4) {
@@ -349,6 +418,40 @@ func (c14) Gen(r *rand.Rand, tier string, i int) any {
 	}
 }
 
+// c14GenHist: a random history on one Runtime. The default credential is drawn from a small pool per history so that it is
+// often put back to an earlier value; neighbouring steps differ in the setting, in the operation's own writer, or in what
+// the parameters pre-set.
+func c14GenHist(r *rand.Rand) c14In {
+	in := c14In{Kind: "defhist"}
+	pool := []*c14W{nil}
+	for n := 2 + r.Intn(2); n > 0; n-- {
+		w := c14GenWriter(r, 0)
+		if r.Intn(2) == 0 {
+			w = c14W{K: "bearer", A: Bs(fmt.Sprintf("TOK%d", r.Intn(1000)))}
+		}
+		pool = append(pool, &w)
+	}
+	var cur *c14W = pool[1+r.Intn(len(pool)-1)]
+	for i, n := 0, 2+r.Intn(5); i < n; i++ {
+		if i > 0 && r.Intn(3) != 0 {
+			cur = pool[r.Intn(len(pool))]
+		}
+		st := c14Step{DefW: cur, Submit: r.Intn(3) == 0}
+		switch r.Intn(6) {
+		case 0:
+			w := c14GenWriter(r, 0)
+			st.OpW = &w
+		case 1:
+			st.PreH = append(st.PreH, c14KV{"Authorization", Bs(c14Hdrs[1+r.Intn(len(c14Hdrs)-1)])})
+		case 2:
+			st.PreH = append(st.PreH, c14KV{"X-API-Key", "prekey"})
+			st.PreQ = append(st.PreQ, c14KV{"api_key", "preq"})
+		}
+		in.Steps = append(in.Steps, st)
+	}
+	return in
+}
+
 type c14Principal struct{ id int }
 
 var errC14 = errors.New("c14 callback refuses")
@@ -357,6 +460,28 @@ var errC14 = errors.New("c14 callback refuses")
 func c14Wire(in c14In, auth runtime.ClientAuthInfoWriter, def runtime.ClientAuthInfoWriter, params func(runtime.ClientRequest) error, consumes string) (*http.Request, error) {
 	rt := client.New("api.example.com", "/", []string{"http"})
 	rt.DefaultAuthentication = def
+	_, sreq, err := c14WireOn(rt, auth, params, consumes, false)
+	return sreq, err
+}
+
+// c14Capture is the transport of the history cases that go through Submit: it writes the request out as a connection would.
+type c14Capture struct {
+	creq *http.Request
+	buf  bytes.Buffer
+	err  error
+}
+
+func (c *c14Capture) RoundTrip(req *http.Request) (*http.Response, error) {
+	c.creq = req
+	c.buf.Reset()
+	c.err = req.Write(&c.buf)
+	return &http.Response{StatusCode: 204, Status: "204 No Content", Proto: "HTTP/1.1", ProtoMajor: 1, ProtoMinor: 1,
+		Header: http.Header{"Content-Type": {runtime.JSONMime}}, Body: http.NoBody, Request: req}, nil
+}
+
+// c14WireOn builds one request on the given Runtime (its DefaultAuthentication as it is now) and reads it back as a server
+// would; it also returns the client-side request.
+func c14WireOn(rt *client.Runtime, auth runtime.ClientAuthInfoWriter, params func(runtime.ClientRequest) error, consumes string, submit bool) (*http.Request, *http.Request, error) {
 	op := &runtime.ClientOperation{
 		ID: "op", Method: "POST", PathPattern: "/things",
 		ProducesMediaTypes: []string{runtime.JSONMime}, ConsumesMediaTypes: []string{consumes},
@@ -369,15 +494,108 @@ func c14Wire(in c14In, auth runtime.ClientAuthInfoWriter, def runtime.ClientAuth
 		}),
 		Reader: runtime.ClientResponseReaderFunc(func(runtime.ClientResponse, runtime.Consumer) (interface{}, error) { return nil, nil }),
 	}
+	if submit {
+		capt, ok := rt.Transport.(*c14Capture)
+		if !ok {
+			return nil, nil, errors.New("c14: the Runtime has no capturing transport")
+		}
+		capt.creq, capt.err = nil, nil
+		if _, err := rt.Submit(op); err != nil {
+			return nil, nil, err
+		}
+		if capt.creq == nil {
+			return nil, nil, errors.New("c14: Submit did not reach the transport")
+		}
+		if capt.err != nil {
+			return nil, nil, capt.err
+		}
+		sreq, err := http.ReadRequest(bufio.NewReader(bytes.NewReader(capt.buf.Bytes())))
+		return capt.creq, sreq, err
+	}
 	req, err := rt.CreateHttpRequest(op)
 	if err != nil {
-		return nil, err
+		return nil, nil, err
 	}
 	var buf bytes.Buffer
 	if err := req.Write(&buf); err != nil {
-		return nil, err
+		return nil, nil, err
 	}
-	return http.ReadRequest(bufio.NewReader(&buf))
+	sreq, err := http.ReadRequest(bufio.NewReader(&buf))
+	return req, sreq, err
+}
+
+// c14Observe: every header that is not the transport's own (lower-cased name) and every query parameter, as received.
+func c14Observe(sreq *http.Request) (hdrs, qry []c14KVs) {
+	for k, vs := range sreq.Header {
+		lk := strings.ToLower(k)
+		if c14TransportHeaders[lk] {
+			continue
+		}
+		hdrs = append(hdrs, c14KVs{K: Bs(lk), Vs: toBs(vs)})
+	}
+	for k, vs := range sreq.URL.Query() {
+		qry = append(qry, c14KVs{K: Bs(k), Vs: toBs(vs)})
+	}
+	sort.Slice(hdrs, func(i, j int) bool { return hdrs[i].K < hdrs[j].K })
+	sort.Slice(qry, func(i, j int) bool { return qry[i].K < qry[j].K })
+	return hdrs, qry
+}
+
+func c14PreParams(preH, preQ []c14KV) func(runtime.ClientRequest) error {
+	return func(req runtime.ClientRequest) error {
+		for _, kv := range preH {
+			if err := req.SetHeaderParam(string(kv.K), string(kv.V)); err != nil {
+				return err
+			}
+		}
+		for _, kv := range preQ {
+			if err := req.SetQueryParam(string(kv.K), string(kv.V)); err != nil {
+				return err
+			}
+		}
+		return nil
+	}
+}
+
+// c14RunHist: the requests of a history, one after the other on one Runtime.
+func c14RunHist(in c14In) []c14StepObs {
+	rt := client.New("api.example.com", "/", []string{"http"})
+	rt.Transport = &c14Capture{}
+	out := make([]c14StepObs, len(in.Steps))
+	type kept struct {
+		req   *http.Request
+		hdr   http.Header
+		query string
+	}
+	keep := make([]*kept, len(in.Steps))
+	for i, st := range in.Steps {
+		rt.DefaultAuthentication = nil
+		if st.DefW != nil {
+			rt.DefaultAuthentication = c14Build(*st.DefW)
+		}
+		var opAuth runtime.ClientAuthInfoWriter
+		if st.OpW != nil {
+			opAuth = c14Build(*st.OpW)
+		}
+		creq, sreq, err := c14WireOn(rt, opAuth, c14PreParams(st.PreH, st.PreQ), runtime.JSONMime, st.Submit)
+		if err != nil {
+			out[i].Fail = err.Error()
+			continue
+		}
+		out[i].Hdrs, out[i].Qry = c14Observe(sreq)
+		keep[i] = &kept{req: creq, hdr: creq.Header.Clone(), query: creq.URL.RawQuery}
+	}
+	// the requests built earlier, looked at again now that the later ones exist
+	for i, k := range keep {
+		if k == nil {
+			continue
+		}
+		out[i].Stable = reflect.DeepEqual(k.req.Header, k.hdr) && k.req.URL.RawQuery == k.query
+		if !out[i].Stable {
+			out[i].Note = fmt.Sprintf("request %d changed after it was built: headers %v -> %v, query %q -> %q", i, k.hdr, k.req.Header, k.query, k.req.URL.RawQuery)
+		}
+	}
+	return out
 }
 
 // headers the transport writes by itself (never a credential of the cases: the key names of the generator avoid them)
@@ -649,36 +867,14 @@ func (c14) Run(inAny any) any {
 			if in.DefW != nil {
 				def = c14Build(*in.DefW)
 			}
-			params := func(req runtime.ClientRequest) error {
-				for _, kv := range in.PreH {
-					if err := req.SetHeaderParam(string(kv.K), string(kv.V)); err != nil {
-						return err
-					}
-				}
-				for _, kv := range in.PreQ {
-					if err := req.SetQueryParam(string(kv.K), string(kv.V)); err != nil {
-						return err
-					}
-				}
-				return nil
-			}
-			sreq, err := c14Wire(in, opAuth, def, params, runtime.JSONMime)
+			sreq, err := c14Wire(in, opAuth, def, c14PreParams(in.PreH, in.PreQ), runtime.JSONMime)
 			if err != nil {
 				obs.Fail = err.Error()
 				return
 			}
-			for k, vs := range sreq.Header {
-				lk := strings.ToLower(k)
-				if c14TransportHeaders[lk] {
-					continue
-				}
-				obs.Hdrs = append(obs.Hdrs, c14KVs{K: Bs(lk), Vs: toBs(vs)})
-			}
-			for k, vs := range sreq.URL.Query() {
-				obs.Qry = append(obs.Qry, c14KVs{K: Bs(k), Vs: toBs(vs)})
-			}
-			sort.Slice(obs.Hdrs, func(i, j int) bool { return obs.Hdrs[i].K < obs.Hdrs[j].K })
-			sort.Slice(obs.Qry, func(i, j int) bool { return obs.Qry[i].K < obs.Qry[j].K })
+			obs.Hdrs, obs.Qry = c14Observe(sreq)
+		case "defhist":
+			obs.Steps = c14RunHist(in)
 		}
 	})
 	if panicked {
@@ -689,6 +885,19 @@ func (c14) Run(inAny any) any {
 
 func (c14) Coq(inAny any, obsAny any) string {
 	in, obs := inAny.(c14In), obsAny.(c14Obs)
+	if in.Kind == "defhist" {
+		steps := make([]string, len(in.Steps))
+		for i, st := range in.Steps {
+			so := c14StepObs{Fail: "not run"}
+			if i < len(obs.Steps) {
+				so = obs.Steps[i]
+			}
+			steps[i] = fmt.Sprintf("(mkstep %s %s %s %s %s %s %s %s)", c14CoqOptWriter(st.OpW), c14CoqOptWriter(st.DefW),
+				coqList(st.PreH, c14CoqKV), coqList(st.PreQ, c14CoqKV), coqBool(so.Fail == "" && obs.Panic == ""), coqBool(so.Stable),
+				coqList(so.Hdrs, c14CoqKVs), coqList(so.Qry, c14CoqKVs))
+		}
+		return "CDefaultHist [" + strings.Join(steps, "; ") + "]"
+	}
 	if obs.Fail != "" {
 		// the transport refused the value (e.g. a control byte in a header): nothing reached the server
 		return "CDefault false false [] []"
@@ -721,6 +930,33 @@ func (c14) Classify(inAny any, obsAny any) []string { return nil }
 
 func (c14) Category(inAny any, obsAny any) (string, bool) {
 	in, obs := inAny.(c14In), obsAny.(c14Obs)
+	if in.Kind == "defhist" {
+		changes, own, preset, refused := 0, 0, 0, 0
+		for i, st := range in.Steps {
+			if i > 0 && !reflect.DeepEqual(st.DefW, in.Steps[i-1].DefW) {
+				changes++
+			}
+			if !c14IsNilWriter(st.OpW) {
+				own++
+			}
+			for _, kv := range st.PreH {
+				if strings.EqualFold(string(kv.K), "Authorization") {
+					preset++
+					break
+				}
+			}
+			if i < len(obs.Steps) && obs.Steps[i].Fail != "" {
+				refused++
+			}
+		}
+		b := func(n int) string {
+			if n > 0 {
+				return "yes"
+			}
+			return "no"
+		}
+		return fmt.Sprintf("defhist/steps=%d/default-reassigned=%d/own-authinfo=%s/preset-authorization=%s/refused=%s", len(in.Steps), changes, b(own), b(preset), b(refused)), true
+	}
 	if obs.Fail != "" {
 		return in.Kind + "/refused-by-transport", false
 	}
